@@ -179,6 +179,13 @@ def honest_suite(seed, tier):
         pe = rng.randrange(n)
         po = rng.choice(list(nonempty_subsets(n)))
         add_group(f"ands{a}.n{n}", and_chain(n, a), pe, po, mixed=(a >= 1000))
+    # the Input instructions of a party need not come in the order of its input bits
+    for n in (2, 3):
+        ii = [inst("I", 0, 1, 0), inst("I", 1, 0, 1), inst("I", 0, 0, 2)] + [inst("I", p, 0, p + 1) for p in range(2, n)]
+        k = len(ii)
+        circ = {"input_regs": [2] + [1] * (n - 1), "insts": ii + [inst("A", 0, 1, k), inst("X", k, 2, k + 1)],
+                "max_reg": k + 2, "output_regs": [k + 1, 0], "and_ops": 1}
+        add_group(f"inorder.n{n}", circ, n - 1, [0, n - 1])
     # a WIDE circuit (more than 1024 registers, the per-register vectors of the online phase get long) with every party an
     # output party, also on 1-slot channels
     for n in (2, 3) if not quick else (2,):
